@@ -24,7 +24,9 @@ EXHAUSTIVE = {"quick": False, "thorough": False}
 DV = {"UNDERSCORE": "DUnderscore", "UNDERSCORE_AND_DASH": "DBoth", "DASH": "DDash"}
 GM = {"FLAT": "GFlat", "NESTED": "GNested", "BOTH": "GBoth"}
 NM = {"DEFAULT": "NDefault", "WITHOUT_ROOT": "NWithoutRoot"}
-ALIASES = [[], ["-q"], ["al_1"], ["--long_al"], ["-w_w"], ["k"], ["--m-n", "p_q"], ["-r", "--s_t"]]
+# one-letter aliases written with TWO dashes and multi-letter ones with ONE dash keep the dashes they were declared with
+# (seeded change C10-05 re-derived the dashes from the length of the name)
+ALIASES = [[], ["-q"], ["al_1"], ["--long_al"], ["-w_w"], ["k"], ["--m-n", "p_q"], ["-r", "--s_t"], ["--d"], ["-ee", "--f"]]
 
 TREES = [
     {"fields": ["x", "ab", "a_b"], "kids": []},
